@@ -1,4 +1,5 @@
 import EaselModel.Getopts.Ranges
+import EaselModel.Getopts.RealLit
 import Mathlib.Algebra.Order.Field.Rat
 import Mathlib.Tactic.Ring
 import Mathlib.Tactic.Linarith
@@ -100,5 +101,28 @@ theorem realRangeOk_upper_iff (v b : Str) (incl : Bool) (h : incl = false → b.
   cases incl with
   | true => simp [realRangeOk, parseRange_upper_incl, Dec.le_iff]
   | false => simp [realRangeOk, parseRange_upper_excl 'x' b (h rfl), Dec.lt_iff]
+
+/-- two-sided real range whose lower bound is a plain decimal literal (`0<x<1`, `-1.5<=x<=2`, …): accepted iff the
+    argument's value lies between the value of that literal and the value of the upper bound -/
+theorem realRangeOk_twoSided_lit (v lo hi : Str) (geq leq : Bool) {neg : Bool} {ip fp : Str} {dot : Bool}
+    (hlo : RealLit lo neg ip fp dot) (hhi : leq = false → hi.head? ≠ some '=') :
+    realRangeOk v (some (twoSided 'x' lo geq leq hi)) = true ↔
+      ((if geq then (atof lo).value ≤ (atof v).value else (atof lo).value < (atof v).value) ∧
+       (if leq then (atof v).value ≤ (atof hi).value else (atof v).value < (atof hi).value)) := by
+  have := realRangeOk_twoSided_iff v lo hi geq leq (realLit_no_marker hlo) hhi
+  have ha : atof (twoSided 'x' lo geq leq hi) = atof lo := by
+    unfold twoSided
+    exact atof_lit_append hlo _
+  rw [ha] at this
+  exact this
+
+/-- the value of a plain decimal literal: (−)(digits without the point) / 10^(number of fraction digits) -/
+theorem value_of_lit {s : Str} {neg : Bool} {ip fp : Str} {dot : Bool} (h : RealLit s neg ip fp dot) :
+    (atof s).value = (if neg then -1 else 1) * (digitsVal (ip ++ fp) : ℚ) * (10 : ℚ) ^ (-(fp.length : Int)) := by
+  have h2 := strtod_lit h [] endsNumber_nil
+  simp only [List.append_nil] at h2
+  unfold atof
+  rw [h2]
+  rfl
 
 end EaselModel.Getopts
